@@ -37,7 +37,7 @@ def ilist(s):
 
 
 def parse_output(text):
-    o = {"KU": {}, "M": {}, "V": {}, "I": {}, "T": [], "D": {}, "X": 0}
+    o = {"KU": {}, "M": {}, "V": {}, "I": {}, "T": [], "D": {}, "C": {}, "X": 0}
     for line in text.splitlines():
         f = line.split(" | ")
         k = f[0]
@@ -55,6 +55,8 @@ def parse_output(text):
                            "ty": f[6], "script": f[7], "eq": f[8]})
         elif k == "D":
             o["D"].setdefault(f[1], {})[int(f[2])] = f[3]
+        elif k == "C":
+            o["C"].setdefault(f[1], {})[int(f[2])] = f[3]
         elif k == "X":
             o["X"] += 1
     return o
@@ -150,6 +152,10 @@ def oracle(rep, o, seed):
             elif res[1] != want:
                 ex["expected"] = want
                 viol("structure", "the translation is not the original with the keys substituted", dom, vid, ex)
+            elif illegal:
+                ex["illegal_keys"] = illegal
+                viol("ok-with-illegal-key", "the translation succeeds although a mapped key is of a kind the context forbids "
+                     "(the result is not a valid object of its context)", dom, vid, ex)
             if sorted(t["calls"]) != sorted(keys):
                 viol("calls", "the translator is not called exactly once per key occurrence", dom, vid, ex)
             if t["ty"] == "0":
@@ -194,6 +200,11 @@ def oracle(rep, o, seed):
                 j, r, vis = short.split(":")
                 if r != "0" or ilist(vis) != each[:int(j) + 1]:
                     viol("keys", "for_each_key does not stop at the first key failing the predicate", dom, vid, ex)
+    for dom, vs in sorted(o["C"].items()):
+        for vid, s in sorted(vs.items()):
+            st["compose"] = st.get("compose", 0) + 1
+            if s not in ("1", "both-fail"):
+                viol("composition", "translate(rename) then translate(shift) differs from translate(shift . rename): %s" % s, dom, vid, {"observed": s})
     for dom, vs in sorted(o["D"].items()):
         for vid, s in sorted(vs.items()):
             st["derive"] += 1
@@ -361,6 +372,7 @@ def run(rep, tier, seed, replay):
             o["T"] = [t for t in o["T"] if t["dom"] == dom and t["vid"] in vids]
             o["I"] = {dom: {v: o["I"][dom][v] for v in vids if v in o["I"].get(dom, {})}}
             o["D"] = {dom: {v: o["D"][dom][v] for v in vids if v in o["D"].get(dom, {})}} if dom in o["D"] else {}
+            o["C"] = {dom: {v: o["C"][dom][v] for v in vids if v in o["C"].get(dom, {})}} if dom in o["C"] else {}
     st = oracle(rep, o, seed)
     tie_ok, ndiff = coq_tie(rep, o, seed)
     samples = []
@@ -376,7 +388,8 @@ def run(rep, tier, seed, replay):
         "trusted_base": vlib.TRUSTED_BASE_COMMON + [
             "the canonical dumps of harness/src/translate.rs (independent traversal) and the token-level substitution of c20.py",
             "rust-bitcoin script parsing/building and hash160 for the byte-level script substitution"],
-        "evaluations": st["cases"] + st["iter"] + st["derive"],
+        "evaluations": st["cases"] + st["iter"] + st["derive"] + st.get("compose", 0),
+        "composition_cases": st.get("compose", 0),
         "distinct_nontrivial": sum(len(v) for v in o["V"].values()),
         "translation_cases": st["cases"], "iteration_cases": st["iter"], "derive_cases": st["derive"],
         "cases_compared_in_coq": len([t for t in o["T"] if t["dom"] in MS_DOMS + DESC_DOMS]),
